@@ -14,7 +14,8 @@
 //	      items": per chunk, after every operation, the items actually held that are not
 //	      marked immune number <= the per-chunk item limit and sum to <= the per-chunk byte
 //	      limit, the limits being the values the cache itself derives (getChunkConfig),
-//	      compared literally.
+//	      compared literally; those derived values must not exceed the chunk's share of the
+//	      configured global limit, max(1, ceil(limit/NumChunks)).
 //	(iii) "once full, still admits new items by evicting older non-immune ones": HasOrAdd of a
 //	      key that is not present must return added==true unless the target chunk is at
 //	      capacity, holds at least one item and all its items are marked immune (nothing
@@ -60,6 +61,7 @@ const (
 	sigImmuneLost    = "C27:(i)-immune-item-evicted"
 	sigItemsOver     = "C27:(ii)-items-over-chunk-limit"
 	sigBytesOver     = "C27:(ii)-bytes-over-chunk-limit"
+	sigShare         = "C27:(ii)-per-chunk-limit-exceeds-configured-share"
 	sigBytesLastItem = "C27:(ii)-bytes-overshoot-less-than-last-admitted-item"
 	sigEmptyRefuses  = "C27:(iii)-empty-chunk-refuses-fresh-item"
 	sigBelowRefuses  = "C27:(iii)-chunk-below-capacity-refuses-fresh-item"
@@ -585,7 +587,7 @@ func main() {
 			"non-trivial = HasOrAdd of an absent key into a chunk at capacity (distinguished by config, admitted?, number evicted, number of immune items kept) or an ImmunizeKeys refused by the capacity guard",
 			boxChunks, boxItems, boxBytes, boxEvict, keysHome, keysOther, sizes)
 		c.Assumptions = []string{
-			"limits of clause (ii) are the per-chunk values the cache derives itself (CacheConfig.getChunkConfig), compared literally against the items actually held that are not marked immune",
+			"limits of clause (ii) are the per-chunk values the cache derives itself (CacheConfig.getChunkConfig), compared literally against the items actually held that are not marked immune; the derived values themselves must not exceed max(1, ceil(global limit / NumChunks))",
 			"a key counts as marked immune from an ImmunizeKeys call that reported numNow+numFuture>0 until Remove(key) or Clear (Clear re-creates the chunks and forgets immunity); a refused ImmunizeKeys (capacity guard, returns 0,0) marks nothing",
 			"clause (iii): HasOrAdd of an absent key must be admitted unless its chunk is at capacity, non-empty and holds only immune items; results of HasOrAdd on a present key are not judged",
 			"symmetry reduction: the cache depends on a key only through its chunk index and identity, so absent keys of one chunk in the same immunity class are interchangeable (state key and operation menu are canonical up to that renaming)",
@@ -629,6 +631,14 @@ func main() {
 			}
 		}
 		c.Count("accepted_configurations_with_a_zero_per_chunk_value", zero)
+		// clause (ii), static part: "configured" per chunk cannot mean more than the chunk's
+		// share of the global limit, rounded up, and at least 1.
+		for _, y := range systems {
+			share := func(v uint32) int { return max(1, int((v+y.cfg.NumChunks-1)/y.cfg.NumChunks)) }
+			if y.l > share(y.cfg.MaxNumItems) || y.b > share(y.cfg.MaxNumBytes) {
+				c.Violation(sigShare, y.describe()+fmt.Sprintf(": a chunk's share of the configured limits is at most %d items / %d bytes", share(y.cfg.MaxNumItems), share(y.cfg.MaxNumBytes)), nil)
+			}
+		}
 
 		if len(c.ReplayData) > 0 {
 			replay(c, systems)
